@@ -74,6 +74,10 @@ func openBackend(kind string) (storage.Store, string, error) {
 			os.RemoveAll(dir)
 			return nil, "", err
 		}
+		if vt.Known(KnownLevelDBReuse) {
+			// KNOWN FINDING (exclusion, see ballast.go)
+			return &ballastStore{Store: s}, dir, nil
+		}
 		return s, dir, nil
 	}
 	return nil, "", fmt.Errorf("unknown backend %q", kind)
@@ -795,6 +799,10 @@ func (r *runner) run() error {
 func (r *runner) labels() {
 	o := r.o
 	o.Label("backend=" + r.kind)
+	if _, ok := r.raw.(*ballastStore); ok {
+		o.Label("known:leveldb-ballast")
+		o.Excluded()
+	}
 	o.Labelf("maxstack=%d", r.maxStack)
 	flag := func(b bool, l string) {
 		if b {
